@@ -961,38 +961,7 @@ func c5Atomic(c *Ctx) {
 		}
 		c.Check(len(bad) == 0 && n >= len(levels), "R5.6", sl.String(), "atomic-store", sl.Pos(), "SetLevel(l) is one atomic Store of exactly l into the shared cell (every level -2..6): %v", bad)
 	}
-	// the counter an AtomicLevel points at is what its copies (held by cores and loggers) share: a method may
-	// install a counter only where there was none (lazy allocation), never replace one
-	ms := c.SSA.MethodSets.MethodSet(types.NewPointer(al))
-	for i := 0; i < ms.Len(); i++ {
-		fn := c.SSA.MethodValue(ms.At(i))
-		if fn == nil || len(fn.Blocks) == 0 || fn.Synthetic != "" || len(fn.Params) == 0 {
-			continue
-		}
-		if _, isPtr := types.Unalias(fn.Params[0].Type()).(*types.Pointer); !isPtr {
-			continue
-		}
-		recv := fn.Params[0]
-		k := 0
-		for _, f := range Region(fn) {
-			AllInstrs(f, func(in ssa.Instruction) {
-				stI, ok := in.(*ssa.Store)
-				if !ok {
-					return
-				}
-				var rootD string
-				Bound(func() { rootD = Desc(Root(stI.Addr)) })
-				if Root(stI.Addr) != ssa.Value(recv) && rootD != recv.Name() {
-					return
-				}
-				k++
-				var g []string
-				Bound(func() { g = AtomStrings(Guards(stI)) })
-				lazy := containsS(g, recv.Name()+".l == nil")
-				c.Check(lazy, "R5.6", fn.String(), "pointer-stable#"+itoa(k), stI.Pos(), "a store through the *AtomicLevel receiver (%s) happens only where no counter existed yet (guards %v); replacing the counter detaches every logger built from an earlier copy, which then never sees later level changes", Desc(stI.Addr), g)
-			})
-		}
-	}
+	c5PointerStable(c, "R5.6")
 	// hook lists: registering hooks on a hooked core never shares the parent's slice tail (a sibling's hook would be
 	// overwritten and fire for entries it never saw)
 	if rh := c.Func(CorePath, "RegisterHooks"); rh != nil {
@@ -1211,4 +1180,44 @@ func cKeepsAll(c *Ctx, rule string, fn *ssa.Function, anchor, empty string) {
 		bad = append(bad[:3:3], "… "+itoa(len(bad)-3)+" more")
 	}
 	c.Check(len(bad) == 0, rule, fn.String(), "keeps-every-core", fn.Pos(), "over %d paths for 0..3 cores: none → the no-op core, one → that core itself, more → a tee over all of them in order, on every path: %v", paths, bad)
+}
+
+// c5PointerStable: see the comment inside.
+func c5PointerStable(c *Ctx, rule string) {
+	al := c.Named(ZapPath, "AtomicLevel")
+	if !c.Anchor(rule, "zap.AtomicLevel", al != nil) {
+		return
+	}
+	// the counter an AtomicLevel points at is what its copies (held by cores and loggers) share: a method may
+	// install a counter only where there was none (lazy allocation), never replace one
+	ms := c.SSA.MethodSets.MethodSet(types.NewPointer(al))
+	for i := 0; i < ms.Len(); i++ {
+		fn := c.SSA.MethodValue(ms.At(i))
+		if fn == nil || len(fn.Blocks) == 0 || fn.Synthetic != "" || len(fn.Params) == 0 {
+			continue
+		}
+		if _, isPtr := types.Unalias(fn.Params[0].Type()).(*types.Pointer); !isPtr {
+			continue
+		}
+		recv := fn.Params[0]
+		k := 0
+		for _, f := range Region(fn) {
+			AllInstrs(f, func(in ssa.Instruction) {
+				stI, ok := in.(*ssa.Store)
+				if !ok {
+					return
+				}
+				var rootD string
+				Bound(func() { rootD = Desc(Root(stI.Addr)) })
+				if Root(stI.Addr) != ssa.Value(recv) && rootD != recv.Name() {
+					return
+				}
+				k++
+				var g []string
+				Bound(func() { g = AtomStrings(Guards(stI)) })
+				lazy := containsS(g, recv.Name()+".l == nil")
+				c.Check(lazy, rule, fn.String(), "pointer-stable#"+itoa(k), stI.Pos(), "a store through the *AtomicLevel receiver (%s) happens only where no counter existed yet (guards %v); replacing the counter detaches every logger built from an earlier copy, which then never sees later level changes", Desc(stI.Addr), g)
+			})
+		}
+	}
 }
